@@ -33,43 +33,50 @@ CHECKS = {
     "C07": ("runtime monitoring: differential monitor against a textbook shared complement-edge ROBDD (unique table) + metamorphic monitors (order, duplicates, complement)",
             "All single functions n<=4, all pairs n<=3, random/structured/Shannon-composed lists of 0..4 functions to n=12 with sharing forced at every level; coverage requires cross-function sharing in >= 10% of multi-function events.",
             TRUST, "3/C07"),
-    "C08": ("runtime monitoring: big-integer order oracle over pairs/vectors + iterator monitor (complete runs n<=4; hooked successor steps from arbitrary tables incl. all carry lengths)",
-            "All pairs n<=3, one-bit/two-bit differences in every word position and cross-size pairs above; sort() against the oracle; complete all_functions runs for n<=4 in both types; successor/termination from arbitrary starts through hook verif_iter_from for every carry length.",
+    "C08": ("runtime monitoring: big-integer order oracle over pairs/vectors + iterator monitor (complete runs n<=4; hooked successor steps from arbitrary tables incl. all carry lengths; scripts of std Iterator methods judged by position arithmetic)",
+            "All pairs n<=3, one-bit/two-bit differences in every word position and cross-size pairs above; sort() against the oracle; complete all_functions runs for n<=4 in both types; successor/termination from arbitrary starts through hook verif_iter_from for every carry length; nth/skip/step_by/take/min/max/count/last/fold/size_hint scripts with counts up to usize::MAX on fresh and positioned iterators for every n.",
             TRUST + "verif_iter_from (feature verif-hooks) builds the real iterator on an arbitrary table.", "3/C08"),
-    "C09": ("runtime monitoring: rendering oracle + parsing oracle (well-formedness predicate) over exhaustive small string spaces and mutation-based hostile strings",
-            "Printing of all functions n<=4 and families to n=14; all strings over a 24-symbol alphabet (hex, upper case, sign, space, non-hex, multi-byte) up to width+2 for n<=3; mutations of valid strings at every position of the first/middle/last chunk for larger n; never-panics and rejects-everything-else monitors.",
+    "C09": ("runtime monitoring: rendering oracle + parsing oracle (well-formedness predicate) over exhaustive small string spaces and mutation-based hostile strings; formatting traits also reached with format-spec flags and through fault-injecting writers",
+            "Printing of all functions n<=4 and families to n=14; all strings over a 24-symbol alphabet (hex, upper case, sign, space, non-hex, multi-byte) up to width+2 for n<=3; mutations of valid strings at every position of the first/middle/last chunk for larger n; never-panics and rejects-everything-else monitors; {:#}/width/fill/+/0 flags and writers failing after k bytes on every print event.",
             TRUST, "3/C09"),
     "C10": ("runtime monitoring: differential monitor LutN vs Lut over a 47-operation catalogue + conversion monitors (exhaustive u8/u16, 2^32 u32 sweep in thorough)",
-            "Every operation of the catalogue with identical in-range arguments on both types for N=0..12 (all pairs of functions for N<=2); results compared structurally incl. panic/no panic; TryFrom for every (N,n) pair; integer conversions bit-exact.",
+            "Every operation of the catalogue with identical in-range arguments on both types for N=0..12 (all pairs of functions for N<=2); results compared structurally incl. panic/no panic; TryFrom for every (N,n) pair; integer conversions bit-exact; both all_functions iterators driven through the same Iterator-method scripts; remembered events re-executed later must return the same results.",
             TRUST + "Differential: a defect shared by both types is invisible here (owned by the other properties).", "3/C10"),
     "C11": ("runtime monitoring: popcount-definition oracle for every named constructor, arguments incl. k up to usize::MAX and count masks with garbage, two build profiles",
             "n=0..14, all i, k in 0..=n+2 and around 32/64/128/usize::MAX, all 2^(n+1) count masks for n<=4 (all to n=12 in thorough) plus walking ones/zeros and random 64-bit masks.",
             TRUST, "3/C11"),
     "C12": ("runtime monitoring: set-semantics oracle for cubes, exhaustive for n<=5 (all literal-mask pairs incl. contradictory), random 32-variable cubes decided by support enumeration",
-            "All cubes, pairs and assignments for n<=5; chains of &; enumeration; minterm; implies_lut against all functions n<=3 (4 in thorough); wide cubes with two-digit variables up to 31.",
+            "All cubes, pairs and assignments for n<=5; chains of &; enumeration; minterm; implies_lut against all functions n<=3 (4 in thorough); wide cubes with two-digit variables up to 31; from_vars lists in any order with repeats; Iterator-method scripts on Cube::all / pos_vars / neg_vars.",
             TRUST, "3/C12"),
     "C13": ("runtime monitoring: parity-semantics oracle for exclusive cubes (exhaustive n<=5) and OR-of-terms oracle for Soes (exhaustive short lists, sampled longer ones)",
-            "All exclusive cubes/pairs/assignments n<=5, all forms of ^ and !, enumeration, implies_lut; all Soes term lists of length <=2 (3 in thorough) over n<=3, sampled to 4 terms and n=8; conversions to Lut; is_zero/is_one soundness.",
+            "All exclusive cubes/pairs/assignments n<=5, all forms of ^ and !, enumeration, implies_lut; all Soes term lists of length <=2 (3 in thorough) over n<=3, sampled to 4 terms and n=8; conversions to Lut; is_zero/is_one soundness; dense 32-variable terms with related partners; Iterator-method scripts on Ecube::all / vars.",
             TRUST, "3/C13"),
     "C14": ("runtime monitoring: denotational + structural monitors on every intermediate of generated Sop expressions (from_cubes operands with overlapping/nested/duplicate cubes)",
             "All sub-lists and pairs for n<=2; complement of all 15 936 irredundant lists of n=3, sampled pairs (all 2.5e8 pair-ops in thorough); random lists to n=10; nested expressions to 4 operations; every result checked on every assignment, through Lut::from, and for contradictory/duplicate/contained cubes.",
             TRUST, "3/C14"),
     "C15": ("runtime monitoring: ANF-by-definition oracle for Lut->Esop (all functions n<=4), XOR/complement oracle for Esop operators on arbitrary cube lists",
-            "All 65 536+ functions of n<=4 and families to n=10: cubes all-positive, distinct, exactly the monomials with coefficient 1, equal for equal functions with different histories, round trip; operator forms on random mixed-polarity lists.",
+            "All 65 536+ functions of n<=4 and families to n=10: cubes all-positive, distinct, exactly the monomials with coefficient 1, equal for equal functions with different histories, round trip; operator forms on random mixed-polarity lists; ^-chains of up to 9 operands and 520-cube lists with repeated cubes checked after every step.",
             TRUST, "3/C15"),
     "C16": ("runtime monitoring: printed text parsed by an independent recursive-descent evaluator of the evident grammar and evaluated on every assignment against value()",
-            "All cubes/exclusive cubes n<=4 (5 in thorough), all Sop/Esop/Soes with <=2 terms over n<=3 (3 in thorough), random forms to 12 variables and 32-variable cubes with two-digit indices; increasing indices; distinct cubes print distinct text.",
+            "All cubes/exclusive cubes n<=4 (5 in thorough), all Sop/Esop/Soes with <=2 terms over n<=3 (3 in thorough), random forms to 12 variables and 32-variable cubes with two-digit indices; increasing indices; distinct cubes print distinct text; long forms; format-spec flags and writers failing after k bytes must give the same text / a prefix of it.",
             TRUST + "The grammar is read liberally (blanks free, juxtaposition = AND): layout is not part of the property.", "3/C16"),
     "C17": ("runtime monitoring: two instrumented builds (debug-assertions+overflow-checks on / off) each write an event log of the same seeded script; offline checker requires panic in both logs for invalid arguments and identical result digests for valid ones",
             "Every index-taking entry point of both types for n=0..8 with indices n..n+70, 2^32, 2^63+n, usize::MAX-1, usize::MAX; size-mismatched operands in every operator form; wrong-length block slices; plus the 47-operation catalogue on valid arguments diffed between the profiles.",
             TRUST + "Profiles compared: opt-level 2 + debug-assertions + overflow-checks vs opt-level 3 without.", "3/C17"),
     "C18": ("runtime monitoring: differential monitor against an exhaustive shortest-path optimum (independent of any MIP model) + denotation/implicant monitors, feature optim-mip (HiGHS)",
-            "n<=2 with 1..2 outputs for every function (pair) and cost triple, all single functions of n=3, sampled 2-output n=3, 1-output n=4 and 3-output n<=2 lists; only costs are compared; sharing between outputs must have been strictly cheaper in some event.",
+            "n<=2 with 1..2 outputs for every function (pair) and cost triple, all single functions of n=3, every n=3 function listed twice under all 27 cost triples, sampled 2..3-output n=3, 1..3-output n=4 lists; only costs are compared; sharing between outputs must have been strictly cheaper in some event.",
             TRUST + "HiGHS is trusted to return what it claims (its answer is checked for validity and optimality, not its internals).", "3/C18"),
     "C19": ("runtime monitoring: statistical checkers over per-thread draw logs (1 thread and 16 threads released by a barrier) + Miri (UB / data-race interpreter) on a 4-thread miniature",
             "256 draws per size, type and thread: well-formedness, both values at every assignment, pairwise distinctness, word independence, thread independence, thresholds with false-alarm probability < 2^-200; Miri with several scheduler seeds interprets rand's unsafe thread-local generator code.",
             TRUST + "Statistical: a generator can be biased in ways these one-sided tests do not see.", "3/C19"),
 }
+
+MIX = (" Alias forms (one object on both sides) and std-trait routes are part of the workload, and a thinned sample of all "
+       "events is re-executed mixed on one thread under the same monitors (hidden-state monitor, DESIGN.md section 1).")
+for _k in list(CHECKS):
+    if _k not in ("C17", "C19"):
+        t, lvl, note, ref = CHECKS[_k]
+        CHECKS[_k] = (t, lvl + MIX, note, ref)
 
 PENDING_REASON = "check not yet built in this session (work in progress; runtime monitoring applies, see DESIGN.md section 3)"
 
